@@ -629,6 +629,11 @@ func (d *Decoder) decodeLobTo(v reflect.Value) error {
 func (d *Decoder) decodeStructTo(v reflect.Value) error {
 	switch v.Kind() {
 	case reflect.Struct:
+		switch v.Type() {
+		case timestampType, nativeTimeType, decimalType, bigIntType, symbolType:
+			// These Go structs stand for scalar Ion values, not for Ion structs.
+			return fmt.Errorf("ion: cannot decode struct to %v", v.Type().String())
+		}
 		return d.decodeStructToStruct(v)
 
 	case reflect.Map:
